@@ -1,5 +1,6 @@
 import UncModel.Lemmas.BracketLemmas
 import UncModel.Gen.Mods
+import UncModel.Gen.ModGates
 /-!
 # C04 — code-modifying options change only the tokens they name
 
@@ -132,6 +133,14 @@ def driverCallOk (c : String × List (String × String × Bool)) : Bool :=
     an un-negated "option is set" on a `mod_` option whose default is off; language tests only conjoin) -/
 theorem C04_driver_gates_default_off : Gen.driverCalls.all driverCallOk = true := by decide +kernel
 
+def gateRowOk (r : String × List String × List String) : Bool :=
+  r.2.2.isEmpty && !r.2.1.isEmpty && r.2.1.all (fun o => defaultOf o == some 0)
+
+/-- call-path analysis regenerated from the source (translators/t_gates.py): every function classified `mod` is reached
+    from `uncrustify_file()` only through a test of a `mod_` option (around a call site on the path, around every mutation
+    site inside the function, or as an early return), and every option so tested is off by default -/
+theorem C04_mod_functions_gated : Gen.modGates.all gateRowOk = true := by decide +kernel
+
 /-! ### non-vacuity -/
 
 -- `if (a) { f(x[1]); }`  →  braces removed
@@ -142,6 +151,6 @@ example : wellNested [.op 0, .other, .op 1, .other, .cl 0, .other, .op 0, .other
 -- more `{` than `}`
 example : wellNested [.op 2, .op 2, .other, .cl 2] = false := by decide
 example : Gen.mutSites.length > 60 ∧ Gen.driverCalls.length > 10 ∧ Gen.modDefaults.length > 50 := by decide +kernel
-example : (Gen.mutClass.filter (fun c => c.2.2.1 == "mod")).length > 15 := by decide +kernel
+example : (Gen.mutClass.filter (fun c => c.2.2.1 == "mod")).length > 15 ∧ Gen.modGates.length > 15 := by decide +kernel
 
 end Unc
